@@ -37,13 +37,46 @@ def sym(f, v):
         n = v[1]
         if n == 'std::ffi::OsString::new':
             return 'NEW'
-        if n.endswith('unwrap_or_default') and v[2]:
+        if n.endswith(('unwrap_or_default', 'map_or_else', 'unwrap_or_else', 'map_or')) and v[2] and n.startswith('std::option::Option::'):
+            # the previous value, empty when unset: get(NAME).cloned().unwrap_or_default() and its equivalents
             g = strip(v[2][0])
-            if g[0] == 'call' and g[1] == 'libcnb::env::Env::get' and sym(f, g[2][1]) == 'NAME':
+            rest = [strip(x) for x in v[2][1:]]
+            fresh = lambda x: (x[0] == 'fnitem' and x[1].endswith(('OsString::new', 'Default>::default', 'Default::default'))) or \
+                (x[0] == 'call' and x[1].endswith(('OsString::new', 'Default::default')))
+            keep = lambda x: x[0] == 'fnitem' and x[1].endswith(('Clone>::clone', 'Clone::clone', 'ToOwned>::to_owned', 'to_os_string', 'to_owned'))
+            ok_rest = (not rest) or (len(rest) == 2 and fresh(rest[0]) and keep(rest[1])) or (len(rest) == 1 and fresh(rest[0]))
+            if ok_rest and g[0] == 'call' and g[1] == 'libcnb::env::Env::get' and sym(f, g[2][1]) == 'NAME':
                 return 'PREV'
         if n == L.DELIM_FOR and sym(f, v[2][1]) == 'NAME':
             return 'DELIM'
     return vstr(v)[:60]
+
+
+def guard_str(g, cd):
+    """canonical rendering of a boolean guard inside LayerEnvDelta::apply: equivalent spellings give the same string
+    (`!v.is_empty()` / `v.len() != 0`; `!env.contains_key(n)` / `env.get(n).is_none()`)"""
+    if cd.kind == 'variant' and cd.enum == 'std::option::Option' and cd.subject is not None:
+        sv = strip(cd.subject)
+        if sv[0] == 'call' and sv[1] == 'libcnb::env::Env::get' and len(cd.outcome) == 1:
+            return 'contains_key(%s)==%s' % (sym(g, sv[2][1]), next(iter(cd.outcome)) == 'Some')
+        return None
+    if cd.kind != 'bool':
+        return None
+    v, oc = cd.value, cd.outcome
+    if v[0] == 'bin' and v[1] in ('Ne', 'Eq', 'Gt') and strip(v[3]) == ('const', 0) and strip(v[2])[0] == 'call' and strip(v[2])[1].endswith('::len'):
+        empty = oc if v[1] == 'Eq' else (not oc)
+        return 'is_empty(%s)==%s' % (sym(g, strip(v[2])[2][0]), empty)
+    if v[0] != 'call':
+        return None
+    n = v[1].split('::')[-1]
+    if n in ('is_none', 'is_some') and v[1].startswith('std::option::Option::'):
+        inner = strip(v[2][0])
+        if inner[0] == 'call' and inner[1] == 'libcnb::env::Env::get':
+            present = oc if n == 'is_some' else (not oc)
+            return 'contains_key(%s)==%s' % (sym(g, inner[2][1]), present)
+    if n in ('is_empty', 'contains_key'):
+        return '%s(%s)==%s' % (n, sym(g, v[2][0 if n == 'is_empty' else 1]), oc)
+    return '%s==%s' % (v[1], oc)
 
 
 def run(ctx, rep):
@@ -111,6 +144,11 @@ def run(ctx, rep):
                   'behaviours are applied in rank order %s but files are applied in suffix order %s' % (by_rank, by_suffix))
         cmpf = prog.fn('<libcnb::layer_env::ModificationBehavior as std::cmp::Ord>::cmp')
         rv = strip(sl.local(cmpf, 0))
+        # b.cmp(a).reverse() is a.cmp(b)
+        while rv[0] == 'call' and rv[1].endswith('Ordering::reverse') and len(rv[2]) == 1 and strip(rv[2][0])[0] == 'call' \
+                and strip(rv[2][0])[1].endswith('::cmp') and len(strip(rv[2][0])[2]) == 2:
+            inner = strip(rv[2][0])
+            rv = ('call', inner[1], (inner[2][1], inner[2][0]), inner[3] if len(inner) > 3 else None)
         good = (rv[0] == 'call' and rv[1].endswith('::cmp') and len(rv[2]) == 2 and
                 all(strip(a)[0] == 'call' and strip(a)[1] == ifn.path for a in rv[2]) and
                 strip(strip(rv[2][0])[2][0])[2] == 0 and strip(strip(rv[2][1])[2][0])[2] == 1)
@@ -183,12 +221,9 @@ def arm_rules(ctx, rep, rule='R5', only=None):
             rep.unproven(rule, arm + '/dispatch', c.where(), 'arm is selected on %s, not on the entry\'s behaviour' % bs)
         guards = []
         for cd in conds:
-            if cd.kind == 'bool' and cd.value[0] == 'call':
-                n = cd.value[1].split('::')[-1]
-                if n in ('is_empty', 'contains_key'):
-                    guards.append('%s(%s)==%s' % (n, sym(g, cd.value[2][0 if n == 'is_empty' else 1]), cd.outcome))
-                else:
-                    guards.append('%s==%s' % (cd.value[1], cd.outcome))
+            gs = guard_str(g, cd)
+            if gs is not None:
+                guards.append(gs)
         depth = rpo.index(c.bb) if c.bb in rpo else 10 ** 6
         if c.name.endswith('push'):
             arms.setdefault(arm, []).append((depth, 'push', sym(g, sl.operand(g, c.args[0])), sym(g, sl.operand(g, c.args[1])), tuple(guards)))
@@ -245,7 +280,7 @@ def arm_rules(ctx, rep, rule='R5', only=None):
         skip = []
         if arm == 'Default':
             for cd in conditions(g, c.bb, sl):
-                if cd.kind == 'bool' and cd.value[0] == 'call' and cd.value[1].endswith('contains_key'):
+                if (guard_str(g, cd) or '').startswith('contains_key(NAME)=='):
                     t = g.blocks[cd.sw_bb]['t']
                     for tb in set([b for _, b in t['targets']] + [t['else']]):
                         if tb != cd.target:
